@@ -19,6 +19,16 @@ func lightTransfers(w *world.World, o menuOpts) []world.Action {
 				}
 			}
 			acts = append(acts, uni.ESDTTransfer(from, uni.S0, uni.F, 1, []byte("f")))
+			// the same token twice in one list: each quantity is within the holding, the sum is not
+			if h >= 2 {
+				for _, to := range users(o) {
+					if string(to) != string(from) {
+						acts = append(acts, uni.Multi(from, to, []uni.Ent{{Tok: uni.F, Nonce: 0, Q: h - 1}, {Tok: uni.F, Nonce: 0, Q: 2}}),
+							uni.Multi(from, to, []uni.Ent{{Tok: uni.F, Nonce: 0, Q: h}, {Tok: uni.F, Nonce: 0, Q: 1}}))
+						break
+					}
+				}
+			}
 		}
 		if h := held(w, from, tS1); h > 0 {
 			for _, to := range users(o) {
@@ -118,6 +128,11 @@ func c04Profiles(tier Tier) []*explore.Profile {
 			// tokens sent to the system account's own address by a user of its shard
 			if held(w, uni.C1, tF) > 0 {
 				acts = append(acts, uni.ESDTTransfer(uni.C1, uni.Sys, uni.F, 1))
+			}
+			// tokens handed out by the system contract itself (destination-side layout): the
+			// receiving account is subject to freeze and pause like any other
+			for _, to := range [][]byte{uni.B0, uni.C1} {
+				acts = append(acts, uni.SysCall(to, vmcommon.BuiltInFunctionESDTTransfer, uni.F, uni.Big(1)))
 			}
 			return acts
 		},
